@@ -238,8 +238,8 @@ pub fn catch<T>(f: impl FnOnce() -> T) -> Option<T> {
 /// C20 self-check of one listing, independent of the model: page through it with
 /// limit 1, the default limit and an oversized limit (cursor = key of the last
 /// returned item, keys are the text before the first ':'); every page must respect
-/// `min(limit or 10, 30)` and all three walks must return the same sequence.
-/// Returns a description of the first inconsistency.
+/// `min(limit or 10, 30)`, never return the item named by the (exclusive) cursor, and all three walks must
+/// return the same sequence without repeating a key.  Returns a description of the first inconsistency.
 pub fn paging_audit(name: &str, f: &dyn Fn(Option<String>, Option<u32>) -> Option<Vec<String>>) -> Option<String> {
     let mut walks: Vec<Vec<String>> = vec![];
     for limit in [Some(1u32), None, Some(1000u32)] {
@@ -251,6 +251,12 @@ pub fn paging_audit(name: &str, f: &dyn Fn(Option<String>, Option<u32>) -> Optio
                 Some(p) if !p.is_empty() => {
                     if p.len() > cap {
                         return Some(format!("{name}:page-of-{}-exceeds-{}", p.len(), cap));
+                    }
+                    // the cursor is exclusive: the item it names must not come back
+                    if let Some(c) = &cursor {
+                        if p.iter().any(|e| e.split(':').next().unwrap() == c.as_str()) {
+                            return Some(format!("{name}:cursor-item-returned-again"));
+                        }
                     }
                     cursor = Some(p.last().unwrap().split(':').next().unwrap().to_string());
                     out.extend(p);
